@@ -70,7 +70,14 @@ def post_eigen(X, P, NSIG, method, threshold, NFFT, criteria, result):
     except Exception:
         return c.fail('eigen:returns-pair', {}, feats)
     c.require('eigen:psd-length', psd.shape == (NFFT,), {'len': list(psd.shape), 'NFFT': NFFT}, feats)
-    f_pos = dict(feats, exact_zero_singular_value=_zero_sv(S))
+    # F26 is about *exactly* singular data: whether a singular value is exactly zero is decided on the monitor's own
+    # SVD of the data matrix, not on the values the code returns (a code change that rounds small singular values to
+    # zero must not be able to hide behind the known finding)
+    try:
+        _sv_own = np.linalg.svd(fb_matrix(x, P, NPr), compute_uv=False)
+    except Exception:
+        _sv_own = S
+    f_pos = dict(feats, exact_zero_singular_value=_zero_sv(_sv_own))
     c.require('eigen:psd-positive', bool(np.isrealobj(psd) and not np.any(np.isnan(psd)) and np.all(psd > 0)),
               {'min': float(np.nanmin(psd)) if psd.size else None}, f_pos, charact=_ev_zero(psd))
     capped = NPr > 100              # the records on which finding F37 (a silent cap of 100 rows) showed
@@ -296,7 +303,11 @@ def run_case(c, d):
         return
     if not c.require('exact:psd-has-one-value-per-frequency', bool(freqs_ok), {'len': len(psd), 'NFFT': NFFT}, feats):
         return
-    feats = dict(feats, exact_zero_singular_value=_zero_sv(S))
+    try:
+        _sv_own = np.linalg.svd(fb_matrix(np.asarray(x), P, N - P), compute_uv=False)
+    except Exception:
+        _sv_own = S
+    feats = dict(feats, exact_zero_singular_value=_zero_sv(_sv_own))
     ch0 = _ev_zero(psd)
     c.require('exact:pseudo-spectrum-positive', bool(not np.any(np.isnan(psd)) and np.all(psd > 0)),
               {'min': float(np.nanmin(psd))}, feats, charact=ch0)
